@@ -17,4 +17,8 @@ theorem prepare_reloads_option_copies :
 
 theorem volatile_setters_as_classified : OLP.Gen.volatileSets = volatileSets := by decide
 
+/-- the ABCI entry points the shell model ports are unchanged since the port was validated -/
+theorem entry_points_source_pinned :
+    OLP.Expect.pinnedOf OLP.Gen.pinned (pinnedShell.map (fun r => r.fn)) = pinnedShell := by decide
+
 end OLP.Props.C08.Facts
